@@ -5,7 +5,7 @@ with preprocessing and merging of the suite's contents, [conf], [act] syntax, sy
 per instruction, restore) with the state of the OS process threaded through all cases of the invocation, next to the
 declarative reading of the property (what a case does ALONE in a fresh process; "contents of the suite first, in
 [cleanup] last").  TLC checks the clauses (CasePure, OrderIrrelevant, EveryCase, MergeOrder, NotInherited,
-ThreeWaysAgree, OwnSandbox, Preprocessed) on every invocation of three families of inputs
+ThreeWaysAgree, OwnSandbox, OwnSymbols, Preprocessed) on every invocation of four families of inputs
   hist   sequences of cases that change a setting - in [setup]: env of both / one set, unset, ${} expansion, cd,
          timeout, def, files in act/ and tmp/, stdin; in [conf]: status, actor; in a later phase: env, def, cd,
          timeout - or cannot be executed (syntax error, undefined symbol, SKIP), and end in PASS / FAIL / HARD_ERROR
@@ -15,7 +15,10 @@ ThreeWaysAgree, OwnSandbox, Preprocessed) on every invocation of three families 
          actor + status + preprocessor; run via the suite, with --suite, and beside exactly.suite
   sds    instructions of the suite whose values depend on the sandbox of the running case (program arguments, shell
          command, def string / path / program, file contents, here document, env, matchers, paths), 2-3 cases
-refutes the invariants under eight named deviations (the realistic defects), and exports every invocation: the
+  sym    instructions of the suite whose values depend on symbols that every case defines with values of its own
+         (INTEGER in exit-code / num-lines / line-num / -line-nums / timeout, STRING, REGEX, PATH, LIST, program,
+         matcher and transformer symbols), cases with different values in every order, all ways of invocation
+refutes the invariants under ten named deviations (the realistic defects), and exports every invocation: the
 documents of all files instruction by instruction, the way of invocation, and what must be observed.  The harness
 renders the documents as suite / case files (one table: instruction -> source text), runs the real main program in
 process (a sample again as a subprocess), and compares the identifier of every case, the records the probes wrote
@@ -34,7 +37,7 @@ import zlib
 from harness import core
 
 INVARIANTS = ['TypeOK', 'CasePure', 'OrderIrrelevant', 'EveryCase', 'MergeOrder', 'NotInherited', 'ThreeWaysAgree',
-              'OwnSandbox', 'Preprocessed']
+              'OwnSandbox', 'OwnSymbols', 'Preprocessed']
 ACTIONS = ['Resolve', 'BeginCase', 'AccessCase', 'ConfPhase', 'ParseAct', 'ValidateSymbols', 'CreateSandbox',
            'SetupInstr', 'ActExecute', 'BeforeAssertInstr', 'AssertInstr', 'CleanupInstr', 'NextPhase', 'EndCase',
            'Finish']
@@ -46,6 +49,11 @@ ENDS = ['pass', 'fail', 'hard', 'acthard', 'cleanuphard']
 QUICK_ENDS = ['pass', 'fail', 'hard']
 SDS_KINDS = ['arg', 'argTmp', 'shell', 'defStr', 'defPath', 'defCd', 'file', 'fileHere', 'env', 'program', 'ba',
              'cleanup', 'equals', 'matches', 'exists', 'dirContents', 'stdoutFrom', 'mkDir', 'copy', 'cdAct']
+SYM_KINDS = ['strArg', 'listArg', 'shellStr', 'envStr', 'fileStr', 'progSym', 'timeoutInt', 'cleanupArg', 'exitCode',
+             'numLines', 'lineNum', 'lineNums', 'equalsStr', 'matchesRx', 'pathExists', 'textMatcher', 'textTransformer',
+             'intMatcher', 'lineMatcher']
+# (finding D13, fixed in /repo: the range of `filter -line-nums` in an instruction of a suite kept the value of the
+# first case of the run - the deviation LineNumsRangeCached of the specification, which TLC must refute in every run)
 # deviation -> (the invariant TLC must refute, the family that shows it)
 DEVIATIONS = {
     'EnvNotCopied': ('OrderIrrelevant', 'hist'),
@@ -56,6 +64,8 @@ DEVIATIONS = {
     'OptionIgnored': ('ThreeWaysAgree', 'merge'),
     'BesideIgnored': ('ThreeWaysAgree', 'merge'),
     'SandboxValueCached': ('OwnSandbox', 'sds'),
+    'SymbolValueCached': ('OwnSymbols', 'sym'),
+    'LineNumsRangeCached': ('OwnSymbols', 'symLineNums'),
 }
 
 
@@ -65,13 +75,14 @@ def _set(xs):
 
 def cfg(families, muts=ALL_MUTS, core_muts=CORE_MUTS, ends=ENDS, later=ALL_MUTS, len_all=1, len_core=0,
         merge_case_sets='corners', ways=('suite', 'option', 'beside'), sds_kinds=SDS_KINDS, sds_cases=(2,),
-        invariants=INVARIANTS, deviations=()):
+        sym_kinds=SYM_KINDS, sym_vals=('v1', 'v2'), sym_len=2, invariants=INVARIANTS, deviations=()):
     t = 'SPECIFICATION Spec\n'
     t += 'CONSTANT Families = %s\nCONSTANT Deviations = %s\n' % (_set(families), _set(deviations))
     t += 'CONSTANT Muts = %s\nCONSTANT CoreMuts = %s\nCONSTANT Ends = %s\n' % (_set(muts), _set(core_muts), _set(ends))
     t += 'CONSTANT LaterMuts = %s\nCONSTANT LenAll = %d\nCONSTANT LenCore = %d\n' % (_set(later), len_all, len_core)
     t += 'CONSTANT MergeCaseSets = "%s"\nCONSTANT Ways = %s\n' % (merge_case_sets, _set(ways))
     t += 'CONSTANT SdsKinds = %s\nCONSTANT SdsCases = {%s}\n' % (_set(sds_kinds), ', '.join(map(str, sds_cases)))
+    t += 'CONSTANT SymKinds = %s\nCONSTANT SymVals = %s\nCONSTANT SymLen = %d\n' % (_set(sym_kinds), _set(sym_vals), sym_len)
     t += ''.join('INVARIANT %s\n' % i for i in invariants)
     return t + 'CHECK_DEADLOCK FALSE\n'
 
@@ -79,7 +90,7 @@ def cfg(families, muts=ALL_MUTS, core_muts=CORE_MUTS, ends=ENDS, later=ALL_MUTS,
 # ======================================================================================== concretisation
 # One table: abstract instruction -> source text.  @HOME@ (directory of the root suite) and @LOG@ (the file the
 # probes append to, outside every sandbox) are filled in by the worker.
-ATOMS = {a: a for a in ('va', 'vb', 'vc', 'vd', 've', 'b0', '+', '*', 'x1', 'x2', 's1')}
+ATOMS = {a: a for a in ('va', 'vb', 'vc', 'vd', 've', 'b0', '+', '*', 'x1', 'x2', 's1', 'v1', 'v2', 'v3')}
 PP_MARK, PP_DONE = 'PPMARK', 'PPDONE'
 PHASES = ['conf', 'setup', 'act', 'before-assert', 'assert', 'cleanup']
 SCOPE_OPT = {'all': '', 'act': '-of act ', 'non': '-of !act '}
@@ -99,8 +110,11 @@ VAL_SH = 'echo "V|$1|$2" >> @LOG@\n'
 CAT_SH = 'echo "V|$1|$(cat "$2")" >> @LOG@\n'
 ACTPROBE = '#!/bin/sh\nexec sh @HOME@/probe.sh "$1" "" "" stdin\n'
 PP_SH = 'sed s/%s/%s/g "$1"\n' % (PP_MARK, PP_DONE)
+VALN_SH = 't=$1; shift; echo "V|$t|$*" >> @LOG@\n'       # all arguments
+VAL2_SH = 'echo "V|$2|$1" >> @LOG@\n'                     # value first (a program symbol of the case), tag appended
+ATC_SH = 'j=1; while [ $j -le $1 ]; do echo "line$j"; j=$((j+1)); done; exit $1\n'   # $1 lines, exit code $1
 HELPERS = {'probe.sh': PROBE_SH, 'val.sh': VAL_SH, 'cat.sh': CAT_SH, 'actprobe': ACTPROBE, 'pp.sh': PP_SH,
-           'data.txt': 'data\n'}
+           'data.txt': 'data\n', 'valn.sh': VALN_SH, 'val2.sh': VAL2_SH, 'atc.sh': ATC_SH}
 
 
 def value(atoms):
@@ -130,6 +144,57 @@ def sds_lines(kind, tag):
         'cleanup': [val + '@[EXACTLY_TMP]@'],
     }[kind]
 
+
+def own_definitions(n):
+    """what case number-of-value n of the sym family defines: one symbol per type, each with a value of its own"""
+    return ['def string V_S = s%d' % n,
+            'def string V_N = %d' % n,
+            'def list V_L = a%d b%d' % (n, n),
+            'def string V_T = %d' % (0 if n == 1 else 60),
+            "def string V_RX = 's[%d]'" % n,
+            'def path V_P = -rel-tmp own%d.txt' % n,
+            'def text-matcher V_TM = equals s%d' % n,
+            'def text-transformer V_TT = replace s%d X' % n,
+            'def integer-matcher V_IM = == %d' % n,
+            'def line-matcher V_LM = line-num >= %d' % n,
+            'def program V_R = %% sh @HOME@/val2.sh s%d' % n,
+            'file -rel-tmp own.txt = s%d' % n,
+            'file -rel-tmp own%d.txt = x' % n]
+
+
+def sym_value(kind, n):
+    """what a recording instruction of the suite must record in a case that defines the values number n"""
+    return 'a%d b%d' % (n, n) if kind == 'listArg' else 's%d' % n
+
+
+def sym_lines(kind, tag):
+    """instructions of a suite whose value depends on symbols that every case defines itself"""
+    val = '% sh @HOME@/val.sh ' + tag + ' '
+    return {
+        'strArg': [val + '@[V_S]@'],
+        'listArg': ['% sh @HOME@/valn.sh ' + tag + ' @[V_L]@'],
+        'shellStr': ['$ sh @HOME@/val.sh %s "@[V_S]@"' % tag],
+        'envStr': ['env K_V = @[V_S]@', '$ sh @HOME@/val.sh %s "$K_V"' % tag],
+        'fileStr': ['file -rel-tmp ks.txt = "@[V_S]@"', '% sh @HOME@/cat.sh ' + tag + ' @[EXACTLY_TMP]@/ks.txt'],
+        'progSym': ['run @ V_R ' + tag],
+        'cleanupArg': [val + '@[V_S]@'],
+    }[kind]
+
+
+# the action to check of a case with the values number n prints n lines and exits with n; tmp/own.txt contains s<n>
+SYM_ASSERT = {
+    'exitCode': ['exit-code == @[V_N]@'],
+    'numLines': ['stdout num-lines == @[V_N]@'],
+    'lineNum': ['stdout -transformed-by filter ( line-num >= @[V_N]@ ) num-lines == 1'],
+    'lineNums': ['stdout -transformed-by filter -line-nums @[V_N]@:', '   num-lines == 1'],
+    'equalsStr': ['contents -rel-tmp own.txt : equals @[V_S]@'],
+    'matchesRx': ['contents -rel-tmp own.txt : matches -full @[V_RX]@'],
+    'pathExists': ['exists @[V_P]@'],
+    'textMatcher': ['contents -rel-tmp own.txt : V_TM'],
+    'textTransformer': ['contents -rel-tmp own.txt : -transformed-by V_TT equals X'],
+    'intMatcher': ['exit-code V_IM'],
+    'lineMatcher': ['stdout -transformed-by filter V_LM num-lines == 1'],
+}
 
 SDS_ASSERT = {
     'equals': ['contents -rel-tmp pwd.txt : equals "@[EXACTLY_ACT]@"'],
@@ -176,7 +241,7 @@ def render(i, own, ph):
     if op == 'timeout':
         return ['timeout = ' + a]
     if op == 'sleep':
-        return ['% sleep ' + {'long': '5', 'short': '0.2'}[a]]
+        return ['% sleep ' + {'long': '5', 'short': '0.2', 'mid': '2'}[a]]
     if op == 'def':
         return ['def string %s = %s' % (a, value(c))]
     if op == 'ref':
@@ -191,6 +256,16 @@ def render(i, own, ph):
         return sds_lines(a, tagstring(i, own, ph, 'sds'))
     if op == 'sdsAssert':
         return SDS_ASSERT[a]
+    if op == 'defOwn':
+        return own_definitions(int(c[0][1:]))
+    if op == 'actown':
+        return ['% sh @HOME@/atc.sh ' + c[0][1:]]
+    if op == 'symLog':
+        return sym_lines(a, tagstring(i, own, ph, 'sym'))
+    if op == 'symAssert':
+        return SYM_ASSERT[a]
+    if op == 'symTimeout':
+        return ['timeout = @[V_T]@']
     raise ValueError(op)
 
 
@@ -203,7 +278,7 @@ def doc_text(doc, own):
 
 
 def input_key(r):
-    return json.dumps([r['fam'], r['h'], sorted(r['s0']), sorted(r['cs']), sorted(r['sk']), r['n']])
+    return json.dumps([r['fam'], r['h'], sorted(r['s0']), sorted(r['cs']), sorted(r['sk']), r['n'], r.get('vs', [])])
 
 
 def run_key(r):
@@ -264,7 +339,7 @@ def exec_run(task, cd):
     cd.write({p: fill(t) for p, t in HELPERS.items()}, mode={'actprobe': 0o755})
     cd.write({p: fill(t) for p, t in task['files'].items()})
     # the environment the program is started in: B is set, the other names the cases use are not
-    for n in ('A', 'K_E', 'X'):
+    for n in ('A', 'K_E', 'K_V', 'X'):
         os.environ.pop(n, None)
     r = inproc.run_main(task['argv'], cd, env={'B': 'b0'})
     lines = []
@@ -289,7 +364,7 @@ def exec_subprocess(task, cd):
     cd.write({p: fill(t) for p, t in HELPERS.items()}, mode={'actprobe': 0o755})
     cd.write({p: fill(t) for p, t in task['files'].items()})
     env = dict(os.environ, PYTHONPATH=os.path.join(runner.REPO, 'src'), TMPDIR=tmp, PYTHONWARNINGS='ignore', B='b0')
-    for n in ('A', 'K_E', 'X', 'EXACTLY_VERIF_TRACE'):
+    for n in ('A', 'K_E', 'K_V', 'X', 'EXACTLY_VERIF_TRACE'):
         env.pop(n, None)
     p = subprocess.run(['/venv/bin/python', os.path.join(runner.REPO, 'src', 'default-main-program-runner.py')]
                        + task['argv'], cwd=cd.home, env=env, stdout=subprocess.PIPE, stderr=subprocess.PIPE, text=True,
@@ -350,6 +425,9 @@ def project(r, task, o):
                        files=sorted(['act', n] for n in f[7].split()) + sorted(['tmp', n] for n in f[8].split()))
         elif f[0] == 'V' and len(f) == 3 and rec['k'] == 'ref':
             rec['x'] = f[2]
+        elif f[0] == 'V' and len(f) == 3 and rec['k'] == 'sym':
+            ns = [n for n in (1, 2, 3) if rec['tag'] in SYM_KINDS and sym_value(rec['tag'], n) == f[2]]
+            rec['x'] = 'v%d' % ns[0] if ns else 'OTHER:' + f[2]
         elif f[0] == 'V' and len(f) == 3 and rec['k'] == 'sds':
             m = SDS_ROOT.match(f[2])
             rec.update(root=m.group(1) if m else 'NOT-A-SANDBOX:' + f[2],
@@ -404,6 +482,11 @@ def compare(r, p, o):
                 clause_log = 'Settings(symbol): record %d %s sees %r, specification %r' % (j, brief_rec(e), g['x'],
                                                                                           value(e['x']))
                 break
+        elif e['k'] == 'sym':
+            if g['x'] != value(e['x']):
+                clause_log = 'OwnSymbols: record %d %s uses the definitions %s, specification %s' % (
+                    j, brief_rec(e), g['x'], value(e['x']))
+                break
         elif e['k'] == 'sds':
             if g['rem'] != list(e['rem']):
                 clause_log = 'OwnSandbox: record %d %s: value points to %s, specification %s' % (j, brief_rec(e),
@@ -423,7 +506,8 @@ def compare(r, p, o):
         clause_log = 'OwnSandbox: cases share a sandbox: %s' % roots
     # the identifiers: reported after the records so that the message names the first setting that differs
     if p['idents'] != want_ids:
-        return 'Identifier: %s, specification %s%s' % (p['idents'], want_ids, ' [%s]' % clause_log if clause_log else '')
+        return '%s: %s, specification %s%s' % ('OwnSymbols(identifier)' if r['fam'] == 'sym' else 'Identifier',
+                                               p['idents'], want_ids, ' [%s]' % clause_log if clause_log else '')
     if clause_log:
         return clause_log
     want_env = {n: value(v) if v else None for n, v in r['penv'].items()}
@@ -447,6 +531,8 @@ def brief(r):
     elif r['fam'] == 'merge':
         d = 'merge[suite:%s case:%s]' % (','.join(p for p in PHASES if p in r['s0']) or '-',
                                          ','.join(p for p in PHASES if p in r['cs']) or '-')
+    elif r['fam'] == 'sym':
+        d = 'sym[%s values %s]' % (','.join(k for k in SYM_KINDS if k in r['sk']), ','.join(r['vs']))
     else:
         d = 'sds[%s x%d]' % (','.join(k for k in SDS_KINDS if k in r['sk']), r['n'])
     return '%s %s%s' % (d, r['way'], '' if r['way'] == 'suite' else ':c%d' % r['tgt'])
@@ -591,6 +677,10 @@ def corruptions(r, p):
         g = [g for g in p['log'] if g['k'] == 'ref'][0]
         g['x'] = g['x'] + '?'
 
+    def other_definitions(p, e):   # a value computed from the definitions of another case
+        g = [g for g in p['log'] if g['k'] == 'sym'][-1]
+        g['x'] = 'v1' if g['x'] != 'v1' else 'v2'
+
     c = [('observation: identifier', ident), ('expectation: identifier', exp_ident),
          ('observation: environment of the process afterwards', process_env),
          ('observation: current directory of the process afterwards', process_cwd)]
@@ -609,6 +699,8 @@ def corruptions(r, p):
         c.append(('observation: a record of the case attributed to the suite', inherited))
     if any(g['k'] == 'ref' for g in p['log']):
         c.append(('observation: symbol value', symbol))
+    if any(g['k'] == 'sym' for g in p['log']):
+        c.append(('observation: value from the definitions of another case', other_definitions))
     return c
 
 
@@ -629,7 +721,7 @@ def negative_controls(ctx, recs, obs, projs):
         if compare(e, p, obs[j]) is None:
             raise core.MachineryFailure('negative control accepted (%s): %s' % (what, brief(recs[j])))
         kinds[what] = kinds.get(what, 0) + 1
-    if len(kinds) < 14 and not ctx.violations:
+    if len(kinds) < 15 and not ctx.violations:
         # (with violations the run fails anyway; then there may be too few agreeing runs to corrupt)
         raise core.MachineryFailure('negative controls: only %s exercised' % sorted(kinds))
     ctx.cov['negative_controls_rejected'] += sum(kinds.values())
@@ -638,11 +730,11 @@ def negative_controls(ctx, recs, obs, projs):
 
 def plans(tier):
     if tier == 'quick':
-        return [('main', dict(families=['hist', 'merge', 'sds'], ends=QUICK_ENDS,
+        return [('main', dict(families=['hist', 'merge', 'sds', 'sym'], ends=QUICK_ENDS,
                               later=['none', 'refX', 'def', 'obsT', 'expand'],
                               len_all=2, len_core=0, merge_case_sets='two', sds_cases=(2,)), None)]
-    return [('main', dict(families=['hist', 'merge', 'sds'], len_all=2, len_core=3, merge_case_sets='all',
-                          sds_cases=(2, 3)), None),
+    return [('main', dict(families=['hist', 'merge', 'sds', 'sym'], len_all=2, len_core=3, merge_case_sets='all',
+                          sds_cases=(2, 3), sym_vals=('v1', 'v2', 'v3'), sym_len=3), None),
             ('triples', dict(families=['hist'], ends=QUICK_ENDS, later=['none', 'refX', 'def', 'obsT', 'expand', 'envAct'],
                              len_all=3, len_core=4), None),
             ('random', dict(families=['file']), 1500)]
@@ -682,7 +774,9 @@ def run(ctx):
     small = dict(hist=dict(families=['hist'], muts=['none', 'envAll', 'timeout', 'def', 'refX', 'obsT', 'cdTmp'],
                            core_muts=[], later=['none', 'refX', 'obsT'], len_all=2),
                  merge=dict(families=['merge'], merge_case_sets='two'),
-                 sds=dict(families=['sds'], sds_kinds=['arg', 'equals']))
+                 sds=dict(families=['sds'], sds_kinds=['arg', 'equals']),
+                 sym=dict(families=['sym'], sym_kinds=['strArg', 'exitCode', 'timeoutInt']),
+                 symLineNums=dict(families=['sym'], sym_kinds=['lineNums', 'lineNum']))
     refutations = {}
     gate = threading.Semaphore(3)
 
@@ -728,7 +822,9 @@ def run(ctx):
                        and len(r['cs']) == 6),
                       ('merge', lambda r: r['way'] == 'option' and r['tgt'] == 2 and sorted(r['s0']) == ['assert', 'cleanup']
                        and len(r['cs']) == 6),
-                      ('sds', lambda r: r['way'] == 'suite' and sorted(r['sk']) == ['defPath'])):
+                      ('sds', lambda r: r['way'] == 'suite' and sorted(r['sk']) == ['defPath']),
+                      ('sym', lambda r: r['way'] == 'suite' and sorted(r['sk']) == ['lineNums'] and r['vs'] == ['v1', 'v2']),
+                      ('sym', lambda r: r['way'] == 'suite' and len(r['sk']) > 1 and r['vs'] == ['v2', 'v1'])):
         for j, r in enumerate(recs):
             if r['fam'] == fam and pick(r):
                 ctx.sample(dict(input=brief(r), argv=tasks[j]['argv'], files=tasks[j]['files'],
@@ -743,7 +839,7 @@ def run(ctx):
                                                           ('cwd=' + g['cwd']) if 'cwd' in g else '', g.get('A') or '-',
                                                           g.get('B') or '-', g.get('pp')) for g in projs[j]['log']],
                                               sandboxes=sorted(set(g['root'].rsplit('/', 1)[-1] for g in projs[j]['log']
-                                                                   if 'root' in g)))), limit=5)
+                                                                   if 'root' in g)))), limit=7)
                 break
     ctx.cov['exhaustive'] = True
     main = plans(ctx.tier)[0][1]
@@ -755,11 +851,18 @@ def run(ctx):
               'one of %d kinds)%s; merge = every set s0 of the 6 phases for the root suite (the sub-suite gets the '
               'complement) x case contents in %s, each run via the suite and each of the two cases with --suite and beside '
               'exactly.suite; sds = each of %d kinds of sandbox dependent instruction alone and all together, %s cases, '
-              'via the suite and with --suite'
+              'via the suite and with --suite; sym = each of %d kinds of instruction of the suite whose value depends on '
+              'symbols that every case defines with values of its own (INTEGER in exit-code / num-lines / line-num / '
+              '-line-nums range / timeout, STRING in arguments / shell command / env / file contents / equals, REGEX, '
+              'PATH, LIST, program, text-matcher, text-transformer, integer-matcher, line-matcher symbols) alone and all '
+              'together, every sequence of %s cases over %d value sets with not all equal, via the suite, and every case '
+              'with --suite, beside exactly.suite (the first also without suite)'
               % (len(ALL_MUTS), len(CORE_MUTS), '/'.join(e for e in main.get('ends', ENDS) if e != 'pass'), n_kinds,
                  n_later, '' if quick else ', every sequence of <= 3 core mutations',
                  {'two': '{all phases, complement of s0}', 'all': 'every subset of the phases (4096 pairs)'}[
-                     main['merge_case_sets']], len(SDS_KINDS), ' and '.join(map(str, main['sds_cases']))))
+                     main['merge_case_sets']], len(SDS_KINDS), ' and '.join(map(str, main['sds_cases'])),
+                 len(SYM_KINDS), '2' if main.get('sym_len', 2) == 2 else '2..%d' % main['sym_len'],
+                 len(main.get('sym_vals', ('v1', 'v2')))))
     if not quick:
         bounds += ('; + hist: every triple (any kind, then 2 of 10 later kinds), every sequence of <= 4 core mutations, '
                    'and 1500 seeded random histories of 4-7 cases of any kind, judged by TLC (family file)')
@@ -779,6 +882,9 @@ def run(ctx):
         'two command lines in [act] under the command line actor (suite and case both supply [act], no actor from the '
         'suite) are a SYNTAX_ERROR ("A single PROGRAM element"); an empty [act] uses the null actor (manual, [act])',
         'when --suite is given AND an exactly.suite lies beside the case is not explored (precedence is not documented)',
+        'sym family: a suite instruction can only refer to symbols of the case from [before-assert] on (its [setup] '
+        'contents come before the definitions of the case); "timeout = @[V_T]@" is followed by `sleep 2` and is only '
+        'explored alone (value 0: killed at once, HARD_ERROR; value 60: two seconds)',
         'exit codes and the reporters of a suite run are C02 / C16; here only identifiers per case are compared',
         'the process state is os.environ (names A, B and any other change) and os.getcwd() of the in-process main '
         'program after the invocation',
